@@ -48,13 +48,13 @@ def TypeA.wf : TypeA → Bool
   | .mk t as => t.wf && Annotations.wf as
 end
 
-/-- constant.rs:136-146 `FromStr` / `from_str_radix` reject magnitudes above `i64::MAX`, and the sign
+/-- constant.rs `FromStr` / `from_str_radix` reject magnitudes above `i64::MAX`, and the sign
 is applied by negation: `i64::MIN` has no spelling. -/
 def intOk (n : Int) : Bool := decide (-i64Max ≤ n) && decide (n ≤ i64Max)
 
 /-- constant.rs:151-180: the text is exactly what `DoubleConstant::parse` recognises. -/
 def doubleOk (t : Str) : Bool :=
-  match DoubleConstant.parse (t.length + 1) t with
+  match DoubleConstant.parse t with
   | .ok t' [] => t' = t
   | _ => false
 
